@@ -189,7 +189,7 @@ func vfC13Scenarios(thorough bool) []*vfGWScenario {
 		out = append(out, &vfGWScenario{Name: "shared-ip-" + proto, Cfg: vfGWCfg{Router: "gossip", Peers: peers, Topics: []string{"t"}, Params: "d2", Scoring: true, ScoreTopics: true,
 			Gater: true, TestExt: true, DecayMs: 1030, ScoreSeenS: 5, SeenTTL: 5, Prefix: []string{"conn:q", "sub:q:t", "join:t", "pub:q:m3"},
 			Validators: []vfValCfg{{Name: "V", Topic: "t", Gated: true, GateOnly: []string{"m1"}}}},
-			Alphabet: []string{"conn:p", "disc:p", "inclose:p", "inopen:p", "outreset:p", "sub:p:t", "graft:p:t", "pub:p:m1", "vrel:V:m1:A", "disc:q", "conn:q", "hb"}, Msgs: msgs, Depth: d, Leaf: []string{"retire"}})
+			Alphabet: []string{"conn:p", "disc:p", "inclose:p", "inopen:p", "outreset:p", "sub:p:t", "graft:p:t", "pub:p:m1", "vrel:V:m1:A", "disc:q", "conn:q", "hb", "ip:p:10.0.0.7", "adv:61000"}, Msgs: msgs, Depth: d, Leaf: []string{"retire"}})
 	}
 	return out
 }
